@@ -126,7 +126,7 @@ func enumerate(e *common.Enum) {
 // sccName: sorted function names joined by +, capped to the 4 smallest.
 func sccName(s []string) string {
 	if len(s) > 4 {
-		return strings.Join(s[:4], "+") + "+…"
+		return strings.Join(s[:4], "+") + "+..."
 	}
 	return strings.Join(s, "+")
 }
@@ -553,14 +553,14 @@ func dynamicHalf(e *common.Enum, g *cgraph.Graph) {
 func unbounded(c *common.Ctx, f family, d int, lexRec bool) bool {
 	if f.W.K == lexK {
 		if lexRec {
-			c.Fail("unbounded-nesting:"+f.W.Name, fmt.Sprintf("a run of %d comments is accepted although each comment makes the tokenizer recurse (nextToken -> readPunctuation -> nextToken, no depth guard on that cycle): stack use grows with the input length", d))
+			c.Fail("unbounded-nesting:"+f.W.sig(), fmt.Sprintf("a run of %d comments is accepted although each comment makes the tokenizer recurse (nextToken -> readPunctuation -> nextToken, no depth guard on that cycle): stack use grows with the input length", d))
 			return true
 		}
 		return false
 	}
 	g, how := grows(f, d)
 	if g {
-		c.Fail("unbounded-nesting:"+f.W.Name, fmt.Sprintf("nesting depth %d (documented limit %d) of construct %q in clause %q is accepted, and the parser's stack grows with the depth: %s", d, docDepth, f.W.Name, f.C.Name, how))
+		c.Fail("unbounded-nesting:"+f.W.sig(), fmt.Sprintf("nesting depth %d (documented limit %d) of construct %q in clause %q is accepted, and the parser's stack grows with the depth: %s", d, docDepth, f.W.Name, f.C.Name, how))
 	}
 	return g
 }
